@@ -15,6 +15,7 @@ for id in $ids; do
 done
 # production-tag builds (no test tag) used by C12/C13 (c12prod) and C20 (c20prod)
 go build -tags verif -o /dev/null ./cmd/c12prod ./cmd/c20prod || exit 1
+go build -race -tags verif -o /dev/null ./cmd/c12prod || exit 1
 # race runtime + instrumented dependencies (shared by all race-variant children)
 [ -n "$first" ] && { go build -race -tags "test verif" -o /dev/null "./cmd/$first" || exit 1; }
 echo setup ok
